@@ -756,6 +756,45 @@ fn sweep_cpfmt(i: u64, acc: &mut Acc) {
     }
 }
 
+/// item = EPAR width 1..=255 (and 0); inner = EPAR height 0..=255: every extended pixel aspect ratio.
+fn sweep_epar(i: u64, acc: &mut Acc) {
+    for eh in 0..=255u16 {
+        let mut p = base_plus();
+        p.opp = Opp::from_mode_bits(6, false, 0);
+        p.cpfmt = Cpfmt { par: 15, pwi: (i as u16 * 2) % 512, marker: true, phi: 1 + (eh % 288), epar: (i as u8, eh as u8) };
+        let h = base_header(Kind::Plus(p));
+        if !acc_result(acc, check_std(&h, false, None), || json!({"kind":"params","sweep":"epar","ew":i,"eh":eh})) {
+            return;
+        }
+    }
+    if i == 12 {
+        acc.sample(|| json!({"epar_width": i, "epar_height": "0..=255 (0 must be rejected)"}));
+    }
+}
+
+/// Extra-information chains of every length 0..=600 (the syntax sets no limit), standard and Sorenson.
+fn sweep_pei_lengths(acc: &mut Acc) {
+    for n in (0..=600usize).chain([1000, 4096, 5000]) {
+        let bytes: Vec<u8> = (0..n).map(|k| (k * 37 + n) as u8).collect();
+        let mut h = base_header(Kind::Baseline(base_baseline()));
+        h.pei = bytes.clone();
+        if !acc_result(acc, check_std(&h, false, None), || json!({"kind":"params","sweep":"pei_len","n":n})) {
+            return;
+        }
+        let mut hp = base_header(Kind::Plus(base_plus()));
+        hp.pei = bytes.clone();
+        if !acc_result(acc, check_std(&hp, false, None), || json!({"kind":"params","sweep":"pei_len_plus","n":n})) {
+            return;
+        }
+        let mut so = base_sor();
+        so.pei = bytes;
+        if !acc_result(acc, check_sor(&so, false), || json!({"kind":"params","sweep":"pei_len_sor","n":n})) {
+            return;
+        }
+    }
+    acc.sample(|| json!({"extra_information_chain_lengths": "0..=600, 1000, 4096, 5000 bytes; baseline, PLUSPTYPE and Sorenson headers"}));
+}
+
 fn sweep_plus_misc(acc: &mut Acc) {
     // MPPTYPE: type x RRU x RTYPE x marker
     for code in 0..8u8 {
@@ -1059,7 +1098,8 @@ fn state_case(g: &mut Gen, cfg: &PicCfg) -> Verdict {
         let version = if mode == Mode::Sorenson { g.below(2) as u8 } else { 0 };
         let size = gen_size(g, mode, cfg);
         let ipic = gen_intra_pic_with(g, cfg, mode, version, size);
-        let mut st = H263State::new(options(mode, false));
+        let scal = g.bool();
+        let mut st = H263State::new(options_scal(mode, scal));
         let pics: Vec<Pic> = {
             let mut v = vec![ipic.clone()];
             if g.bool() {
@@ -1158,6 +1198,8 @@ pub fn run(ctx: &Ctx) -> i32 {
     reports.push(exhaustive_suite(ctx, "opptype_all_mode_patterns", 1024, &sweep_opptype));
     reports.push(exhaustive_suite(ctx, "cpfmt_all_pwi_phi", 512, &sweep_cpfmt));
     reports.push(simple_suite("plusptype_follower_fields", true, sweep_plus_misc));
+    reports.push(exhaustive_suite(ctx, "epar_all_pairs", 256, &sweep_epar));
+    reports.push(simple_suite("extra_information_chain_lengths", true, sweep_pei_lengths));
     let cases = ctx.tier.pick(1_000_000u64, 20_000_000u64);
     reports.push(tape_suite(ctx, "random_cross_products", cases, 260, &random_header_case));
     let cfg = PicCfg { max_dim: 64, max_fixed_mbs: 48, budget: 400, extreme_aspect: false, ..PicCfg::quick() };
@@ -1203,6 +1245,16 @@ pub fn replay(suite: &str, case: &Value) -> Option<Verdict> {
         "cpfmt_all_pwi_phi" => {
             let mut acc = Acc::default();
             sweep_cpfmt(case["pwi"].as_u64()?, &mut acc);
+            Some(from_acc(acc))
+        }
+        "epar_all_pairs" => {
+            let mut acc = Acc::default();
+            sweep_epar(case["ew"].as_u64()?, &mut acc);
+            Some(from_acc(acc))
+        }
+        "extra_information_chain_lengths" => {
+            let mut acc = Acc::default();
+            sweep_pei_lengths(&mut acc);
             Some(from_acc(acc))
         }
         "sorenson_fields" => {
